@@ -58,6 +58,11 @@ type Input struct {
 	// Mode: "" | "ipfs-client" | "ipfs-gateway": how the MerklizerOpts of the claim-building call reach the
 	// contexts (credgen.Env.Mode); in the IPFS modes the credential lists ipfs:// addresses (Cred.CtxIPFS)
 	Mode string `json:"mode,omitempty"`
+	// NameNoAttr / IRINoAttr: the first term (in sorted order) that carries a scoped context and answers to
+	// the type name / the type IRI has NO serialization attribute: the lookup is an error ("not
+	// specified") and - for the IRI, which is what claim building looks up - the claim is a merklized one
+	NameNoAttr bool `json:"name_no_attr,omitempty"`
+	IRINoAttr  bool `json:"iri_no_attr,omitempty"`
 	// ClaimError: the credential does not say which type it has (no credentialSubject.type and a
 	// top-level type array that is not a pair containing VerifiableCredential): no claim may be built
 	ClaimError bool `json:"claim_error,omitempty"`
@@ -205,7 +210,7 @@ func (g *gen) run(in *Input) (out outcome) {
 		return in.Asg
 	}
 	claimAsg := asgFor(in.Schema.TypeIRI)
-	if in.AsgIRI != nil || in.IRIError {
+	if in.AsgIRI != nil || in.IRIError || in.IRINoAttr || in.NameNoAttr {
 		out.counts = append(out.counts, "observation-two-terms-one-iri")
 	}
 	// lookups
@@ -244,6 +249,10 @@ func (g *gen) run(in *Input) (out outcome) {
 			continue
 		}
 		switch {
+		case wellFormed && known && ((in.IRINoAttr && l.Type == in.Schema.TypeIRI) || (in.NameNoAttr && l.Type == in.Schema.TypeName)):
+			if o.class != "err" {
+				fail("c17-lookup-index", fmt.Sprintf("the first term answering to %q has no serialization attribute; lookup gave index %d", l.Type, o.idx), l)
+			}
 		case wellFormed && known && in.IRIError && l.Type == in.Schema.TypeIRI:
 			if o.class != "err" {
 				fail("c17-lookup-index", fmt.Sprintf("the first term identified by %q has an array-shaped scoped context; lookup gave index %d", l.Type, o.idx), l)
@@ -295,6 +304,13 @@ func (g *gen) run(in *Input) (out outcome) {
 			if co.class != "err" {
 				fail("c17-claim-error", "the credential names no single type next to VerifiableCredential but a claim was built", nil)
 			}
+		case in.Kind == "assign" && in.IRINoAttr:
+			// an ordinary merklized claim: root in raw slot 2, the other data slots empty
+			if co.class != "ok" {
+				fail("c17-claim-error", "the first term identified by the type IRI has no serialization attribute (merklized schema) but claim building failed: "+co.msg, nil)
+			} else if v.Root == nil || co.slots[2].Cmp(v.Root) != 0 || co.slots[3].Sign() != 0 || co.slots[6].Sign() != 0 || co.slots[7].Sign() != 0 {
+				fail("c17-claim-slot", fmt.Sprintf("the first term identified by the type IRI has no serialization attribute: expected a merklized claim (root %v in raw slot 2, slots 3/6/7 empty), got %v %v %v %v", v.Root, co.slots[2], co.slots[3], co.slots[6], co.slots[7]), nil)
+			}
 		case in.Kind == "assign" && in.IRIError:
 			if co.class != "err" {
 				fail("c17-claim-error", "the first term identified by the type IRI has an array-shaped scoped context but a claim was built", nil)
@@ -340,7 +356,7 @@ func (g *gen) run(in *Input) (out outcome) {
 					}
 				}
 				for _, tp := range []string{in.Schema.TypeName, in.Schema.TypeIRI} {
-					if tp == in.Schema.TypeName && (in.AsgIRI != nil || in.IRIError) {
+					if tp == in.Schema.TypeName && (in.AsgIRI != nil || in.IRIError || in.IRINoAttr || in.NameNoAttr) {
 						continue // the credential's type is the IRI: the claim follows the lookup by IRI
 					}
 					o, ok := byKey[f+"\x00"+tp]
@@ -584,36 +600,58 @@ func (g *gen) specials() {
 	// several terms share the type's IRI: aliases without scoped context (a plain IRI string, a map with
 	// @id only), with a map-shaped scoped context carrying another attribute, with an array-shaped one;
 	// sorting before and after the type.  Terms without a scoped context are passed over.
-	shapes := []string{"", "none", "string", "map", "array"}
+	shapes := []string{"", "none", "string", "map", "mapnoattr", "array"}
 	mainAsg := [4]string{"price", "", "", "name"}
 	beforeAsg := [4]string{"", "count", "", ""}
 	afterAsg := [4]string{"name", "", "", ""}
-	for _, before := range shapes {
-		for _, after := range shapes {
-			as := g.env.NewSchema(strp(credgen.SerAttr(mainAsg[0], mainAsg[1], mainAsg[2], mainAsg[3])))
-			if before != "" {
-				as.Extra = append(as.Extra, credgen.ExtraType{Name: "AaaAlias", IRI: as.TypeIRI, Shape: before, SerAttr: credgen.SerAttr(beforeAsg[0], beforeAsg[1], beforeAsg[2], beforeAsg[3])})
-			}
-			if after != "" {
-				as.Extra = append(as.Extra, credgen.ExtraType{Name: "ZzzAlias", IRI: as.TypeIRI, Shape: after, SerAttr: credgen.SerAttr(afterAsg[0], afterAsg[1], afterAsg[2], afterAsg[3])})
-			}
-			_ = g.env.Register(as)
-			in := &Input{Kind: "assign", Asg: mainAsg, Schema: as, Lookups: lookupsFor(as, fields, false), Cred: &credgen.Spec{Schema: as}, InModel: true}
-			switch before {
-			case "map":
-				in.AsgIRI = &beforeAsg
-			case "array":
-				in.IRIError = true
-			}
-			for _, tp := range []string{"AaaAlias", "ZzzAlias"} {
-				for _, f := range []string{"price", "count", "name"} {
-					in.Lookups = append(in.Lookups, Lookup{Field: f, Type: tp, Route: "parser", NoExpect: true})
+	extra := func(name, iri, shape string, asg [4]string) credgen.ExtraType {
+		if shape == "mapnoattr" {
+			return credgen.ExtraType{Name: name, IRI: iri, Shape: "map"} // a scoped context without the attribute
+		}
+		return credgen.ExtraType{Name: name, IRI: iri, Shape: shape, SerAttr: credgen.SerAttr(asg[0], asg[1], asg[2], asg[3])}
+	}
+	for _, mainAttr := range []bool{true, false} {
+		for _, before := range shapes {
+			for _, after := range shapes {
+				var as *credgen.Schema
+				if mainAttr {
+					as = g.env.NewSchema(strp(credgen.SerAttr(mainAsg[0], mainAsg[1], mainAsg[2], mainAsg[3])))
+				} else {
+					if before == "" && after == "" {
+						continue
+					}
+					as = g.env.NewSchema(nil) // the type itself has a scoped context without the attribute
 				}
-			}
-			g.ins = append(g.ins, in)
-			// repetitions (map order)
-			for r := 0; r < 4; r++ {
-				g.ins = append(g.ins, &Input{Kind: "assign", Asg: mainAsg, AsgIRI: in.AsgIRI, IRIError: in.IRIError, Schema: as, Lookups: in.Lookups[:12]})
+				if before != "" {
+					as.Extra = append(as.Extra, extra("AaaAlias", as.TypeIRI, before, beforeAsg))
+				}
+				if after != "" {
+					as.Extra = append(as.Extra, extra("ZzzAlias", as.TypeIRI, after, afterAsg))
+				}
+				_ = g.env.Register(as)
+				in := &Input{Kind: "assign", Asg: mainAsg, Schema: as, Lookups: lookupsFor(as, fields, false), Cred: &credgen.Spec{Schema: as}, InModel: true}
+				in.NameNoAttr = !mainAttr
+				// by IRI: the first term in sorted order (AaaAlias, the type, ZzzAlias) that carries a scoped context
+				switch before {
+				case "map":
+					in.AsgIRI = &beforeAsg
+				case "mapnoattr":
+					in.IRINoAttr = true
+				case "array":
+					in.IRIError = true
+				default:
+					in.IRINoAttr = !mainAttr
+				}
+				for _, tp := range []string{"AaaAlias", "ZzzAlias"} {
+					for _, f := range []string{"price", "count", "name"} {
+						in.Lookups = append(in.Lookups, Lookup{Field: f, Type: tp, Route: "parser", NoExpect: true})
+					}
+				}
+				g.ins = append(g.ins, in)
+				// repetitions (map order)
+				for r := 0; r < 4; r++ {
+					g.ins = append(g.ins, &Input{Kind: "assign", Asg: mainAsg, AsgIRI: in.AsgIRI, IRIError: in.IRIError, IRINoAttr: in.IRINoAttr, NameNoAttr: in.NameNoAttr, Schema: as, Lookups: in.Lookups[:12]})
+				}
 			}
 		}
 	}
@@ -1102,7 +1140,7 @@ func (g *gen) writeShards() error {
 				// agreement inside the model, on the recorded tables
 				for _, fp := range append(credgen.FieldPaths(), "spare") {
 					for _, tp := range []string{in.Schema.TypeName, in.Schema.TypeIRI} {
-						if tp == in.Schema.TypeName && (in.AsgIRI != nil || in.IRIError) {
+						if tp == in.Schema.TypeName && (in.AsgIRI != nil || in.IRIError || in.IRINoAttr || in.NameNoAttr) {
 							continue // two terms share the @id: only the lookup by IRI is the claim builder's
 						}
 						as = append(as, fmt.Sprintf("mka %d %d %d %s %s %s", id, c, d, f.Str(fp), f.Str(tp), coqgen.OptLimbs(out.view.Fields[fp])))
